@@ -296,7 +296,7 @@ func runC08(c *ctx, r *Report) error {
 	if !c.quick {
 		nTie = 60000
 	}
-	return semaTie(c, r, nTie, func(rng *rand.Rand, env *semaEnv) {
+	if err := semaTie(c, r, nTie, func(rng *rand.Rand, env *semaEnv) {
 		// re-case some property names of the environment so that folded lookups are exercised
 		for _, v := range env.vars {
 			if o, ok := v.(*actionlint.ObjectType); ok && rng.Intn(3) == 0 {
@@ -314,7 +314,16 @@ func runC08(c *ctx, r *Report) error {
 			return "json-literal-not-read-as-written", "whether the string literal passed to fromJSON is well-formed JSON is decided differently from the JSON syntax (the contents of string literals are case-sensitive): implementation [" + a + "], JSON reader [" + b + "]"
 		}
 		return "", ""
-	})
+	}); err != nil {
+		return err
+	}
+	// workflow level: ids, keys and context names of the generated workflows are written in random letter case; the model
+	// AL.Visit folds all of them (check_case_insensitive, steps_ids, needs_exact)
+	nV := 200
+	if !c.quick {
+		nV = 4000
+	}
+	return visitTie(c, r, nV, false, nil)
 }
 
 type relErr struct{}
